@@ -1,0 +1,54 @@
+//go:build verif
+
+package serf
+
+import "time"
+
+// Accessors for the event pipeline, used only by the verification harness
+// (/verif). Compiled only with -tags verif.
+
+// VerifCoalesceLoop runs the real coalesceLoop around the coalescer, exactly as
+// coalescedEventCh does, and additionally reports when the goroutine returned.
+func VerifCoalesceLoop(outCh chan<- Event, shutdownCh <-chan struct{},
+	cPeriod, qPeriod time.Duration, v *VerifCoalescer) (chan<- Event, <-chan struct{}) {
+	inCh := make(chan Event, 1024)
+	done := make(chan struct{})
+	go func() {
+		coalesceLoop(inCh, outCh, shutdownCh, cPeriod, qPeriod, v.c)
+		close(done)
+	}()
+	return inCh, done
+}
+
+// VerifEncodeLeave encodes a leave intent as it travels in gossip.
+func VerifEncodeLeave(ltime uint64, node string, prune bool) ([]byte, error) {
+	return encodeMessage(messageLeaveType, &messageLeave{LTime: LamportTime(ltime), Node: node, Prune: prune}, false)
+}
+
+// VerifEncodeJoin encodes a join intent as it travels in gossip.
+func VerifEncodeJoin(ltime uint64, node string) ([]byte, error) {
+	return encodeMessage(messageJoinType, &messageJoin{LTime: LamportTime(ltime), Node: node}, false)
+}
+
+// FlushCap is Flush with a caller-chosen channel capacity (the caller knows an
+// upper bound on what a flush can send: the number of events coalesced since the
+// previous one). A flush that would send more blocks and is reported as nil, false.
+func (v *VerifCoalescer) FlushCap(n int) ([]Event, bool) {
+	ch := make(chan Event, n)
+	fin := make(chan struct{})
+	go func() {
+		v.c.Flush(ch)
+		close(ch)
+		close(fin)
+	}()
+	select {
+	case <-fin:
+	case <-time.After(5 * time.Second):
+		return nil, false
+	}
+	var out []Event
+	for e := range ch {
+		out = append(out, e)
+	}
+	return out, true
+}
